@@ -1025,6 +1025,14 @@ def _correspond(ctx, loop):
                     ref.disagreements.append({"kind": kind, "history": hist_str(h[:i + 1]), "step": i, "coq_ref": c,
                                               "python_ref": sp, "impl": im,
                                               "differs": "coq-vs-python" if c != sp else "reference-vs-impl"})
+                if c == sp and "reference-set" not in vio_seen and not im.startswith("EXC:"):
+                    # the proved reference (Coq) and its transcription agree; the real full-id lookup differs: the clause
+                    # "lookups contain exactly the objects announced and not since killed or unloaded" fails on this history
+                    vio_seen["reference-set"] = {"clause": "the lookups contain exactly the objects announced and not since killed (directly or "
+                                                           "through a killed ancestor) or unloaded, where they were last announced (reference set)",
+                                                 "class": "reference-set", "history": hist_str(h[:i + 1]), "step": i,
+                                                 "event": " ".join(str(x) for x in h[i]), "detail": "reference %s ; implementation %s" % (sp[:300], im[:300])}
+                    n_vio["reference-set"] = n_vio.get("reference-set", 0) + 1
                 break
             e = h[i]
             if prev is not None and e[0] in ("K", "X"):
@@ -1112,7 +1120,15 @@ def search(ctx, hints):
 def replay(ctx, case):
     loop = _loop()
     try:
-        v, _ = check_history(parse_hist(case["history"]), loop)
+        h = parse_hist(case["history"])
+        if case.get("class") == "reference-set":
+            v, io, refs = check_history(h, loop, want_obs="ref")
+            for i, (sp, im) in enumerate(refs):
+                if sp != im:
+                    return True, {"clause": case.get("clause"), "class": "reference-set", "step": i,
+                                  "detail": "reference %s ; implementation %s" % (sp[:300], im[:300])}
+            return (v is not None), (v or "holds")
+        v, _ = check_history(h, loop)
         return (v is not None), (v or "holds")
     finally:
         loop.close()
